@@ -89,7 +89,10 @@ ControllerTable ==
     <<0, 1, 2, 4, 5, 6, 7, 8, 10, 11, 12, 13, 16, 17, 18, 19,
       32, 33, 34, 36, 37, 38, 39, 40, 42, 43, 44, 45, 48, 49, 50, 51,
       96, 97, 98, 99, 100, 101,
-      120, 121, 122, 123, 124, 125, 126, 127>>
+      120, 121, 122, 123, 124, 125, 126, 127,
+      \* damper .. hold 2, sound controllers 1-10, general purpose 5-8, portamento control,
+      \* high resolution velocity prefix, effects 1-5 depth
+      64, 65, 66, 67, 68, 69, 70, 71, 72, 73, 74, 75, 76, 77, 78, 79, 80, 81, 82, 83, 84, 88, 91, 92, 93, 94, 95>>
 
 TypesViol(r) ==
     CASE r[1] = 0 ->
@@ -118,6 +121,7 @@ TypesViol(r) ==
            LET i == r[2] + 1 IN
            (IF r[3] = ControllerTable[i] THEN {}
             ELSE {<<IF i >= 39 THEN "C02" ELSE "C16", "controller-constant-" \o ToString(r[2])>>})
+           \cup (IF r[3] \in 0..127 THEN {} ELSE {<<"C04", "constant-out-of-range">>})
            \cup (IF i \in 17..32 /\ r[3] # ControllerTable[i - 16] + 32 THEN {<<"C16", "lsb-constant">>} ELSE {})
 
 (******************************** table `ints` *****************************)
@@ -267,14 +271,14 @@ SerdeViol(r) ==
                 \cup (IF valid /\ r[5] # 1 THEN {<<"C19", "raw-valid-rejected">>} ELSE {})
                 \cup (IF valid /\ r[5] = 1 /\ ~(<<r[6], r[7], r[8]>> = <<r[2], r[3], r[4]>> /\ r[9] = TypeOf(r[2]))
                       THEN {<<"C19", "raw-value-changed">>} ELSE {})
-      [] r[1] = 3 ->        \* ControlChange14BitMessage
+      [] r[1] \in {3, 9} ->   \* ControlChange14BitMessage (3: from a map, 9: from a sequence)
            LET valid == r[2] \in 0..15 /\ r[3] \in 0..31 /\ r[4] \in 0..16383 IN
            (IF r[5] = -2 THEN {<<"C19", "deserialize-panics">>} ELSE {})
            \cup (IF r[5] = 1 /\ ~valid THEN {<<"C19", "cc14-invalid-accepted">>} ELSE {})
            \cup (IF valid /\ r[5] # 1 THEN {<<"C19", "cc14-valid-rejected">>} ELSE {})
            \cup (IF valid /\ r[5] = 1 /\ ~(<<r[6], r[7], r[8]>> = <<r[2], r[3], r[4]>> /\ r[9] = r[3] + 32 /\ r[10] = r[3] + 32)
                  THEN {<<"C19", "cc14-value-changed">>} ELSE {})
-      [] r[1] = 4 ->        \* ParameterNumberMessage
+      [] r[1] \in {4, 8} ->   \* ParameterNumberMessage (4: from a map, 8: from a sequence)
            LET msg == <<r[2], r[3], r[4], r[5], r[6], r[7]>>
                valid == r[7] <= 2 /\ PnValid(msg) IN
            (IF r[8] = -2 THEN {<<"C19", "deserialize-panics">>} ELSE {})
